@@ -518,27 +518,35 @@ theorem syncDay_refines {rights : Rights} (hA : AllRights rights) {dst src : Rep
   obtain ⟨a1, z1, t1, n1⟩ := h1 ets
   generalize (if ets.isEmpty then dst else applyETombs rights dst ets) = dst1 at a1 z1 t1 n1
   -- 2. the node deletion records
-  generalize hnts : sortBy (fun (a b : NTomb) => lexL [a.ddate, a.id, a.ent] [b.ddate, b.id, b.ent]) nts0 = nts
-  have hmem : ∀ x, x ∈ nts ↔ x ∈ nts0 := fun x => by rw [← hnts]; exact mem_sortBy _ x nts0
+  generalize hnts : sortBy (fun (a b : NTomb) => lexL [a.ddate, a.id, a.ent] [b.ddate, b.id, b.ent]) nts0 = ntsS
+  have hmemS : ∀ x, x ∈ ntsS ↔ x ∈ nts0 := fun x => by rw [← hnts]; exact mem_sortBy _ x nts0
+  -- the records applied: the whole answer — in the order of the sub-batches since the repair of the batching
+  obtain ⟨nts, hmemN, hd2⟩ : ∃ nts : List NTomb, (∀ x, x ∈ nts ↔ x ∈ ntsS) ∧
+      (if ntsS.isEmpty then dst1 else applyNTombs d rights dst1 ntsS) = nts.foldl (applyNTomb d) dst1 := by
+    by_cases he : ntsS.isEmpty = true
+    · refine ⟨[], ?_, ?_⟩
+      · intro x; rw [List.isEmpty_iff.mp he]
+      · simp only [he, ↓reduceIte, List.foldl_nil]
+    · simp only [he, Bool.false_eq_true, ↓reduceIte]
+      by_cases hk : d.deletionBatchKeyedById = false
+      · exact ⟨(subBatches ntsS.length ntsS).flatten, mem_subBatches_flatten _ _ (Nat.le_refl _),
+          applyNTombs_all d hk rights (fun r l => validNTombs_all hA r l) dst1 ntsS⟩
+      · have hk' : d.deletionBatchKeyedById = true := by simpa using hk
+        have hdist : DayRecordsDistinct src := by
+          rcases hK with hK | hK
+          · exact absurd hK hk
+          · exact hK
+        refine ⟨ntsS, fun _ => Iff.rfl, ?_⟩
+        unfold applyNTombs
+        simp only [hk', ↓reduceIte]
+        have hp : (ntsS.map (·.id)).Perm (nts0.map (·.id)) := by rw [← hnts]; exact (sortBy_perm _ nts0).map _
+        rw [dedupById_of_nodup ntsS (by rw [hp.nodup_iff, ← hnts0]; exact hdist room ent day), validNTombs_all hA]
+  have hmem : ∀ x, x ∈ nts ↔ x ∈ nts0 := fun x => (hmemN x).trans (hmemS x)
   have hnts_src : ∀ x ∈ nts, x ∈ src.ntombs := by
     intro x hx
     have := (hmem x).mp hx
     rw [← hnts0] at this
     exact (List.mem_filter.mp this).1
-  have hdedup : (if d.deletionBatchKeyedById = true then dedupById nts else nts) = nts := by
-    rcases hK with hK | hK
-    · simp [hK]
-    · split
-      · apply dedupById_of_nodup
-        have hp : (nts.map (·.id)).Perm (nts0.map (·.id)) := by rw [← hnts]; exact (sortBy_perm _ nts0).map _
-        rw [hp.nodup_iff, ← hnts0]
-        exact hK room ent day
-      · rfl
-  have hd2 : (if nts.isEmpty then dst1 else applyNTombs d rights dst1 nts) = nts.foldl (applyNTomb d) dst1 := by
-    split
-    · rename_i he; rw [List.isEmpty_iff.mp he]; rfl
-    · unfold applyNTombs
-      rw [hdedup, validNTombs_all hA]
   rw [hd2]
   have hpk2 : PkFun (fun x => x ∈ dst1.ntombs ∨ x ∈ nts) := by
     intro x y hx hy hp
